@@ -43,7 +43,9 @@ CLAIMED = {
          "lock that has stored but not returned), so the handler's section gets the full guarantee and the interrupted code's is not "
          "weakened. Tie: the C01 trace refinement on memb / mb / bp with synthetic signals delivered by the runtime at every shimmed "
          "event of reader and updater threads (incl. inside synchronize_rcu), depth up to 3; implementation oracle: reader word "
-         "balanced around every handler; interruption classes counted in the evidence. qsbr excluded as documented.",
+         "balanced around every handler; interruption classes counted in the evidence; plus, as supporting exploration, REAL asynchronous "
+         "signals (pthread_kill at random instants) against the unshimmed memb / mb / bp sources with the same oracles "
+         "(harness/scen/sig_real.c). qsbr excluded as documented.",
     note="Trusted: Lean kernel; handlers run to completion on the interrupted thread; synthetic delivery at shim points (real "
          "instruction-granularity delivery is not exercised); model and tie of C01; bp signal masking observed as trace events.",
     technique="Lean 4 structural-induction proof (balanced handler trees) + inductive invariant on the TSO GP model with handler frames; trace refinement with synthetic signal injection",
